@@ -131,6 +131,7 @@ fn escape_case(bytes: &[u8], quote: bool) {
 pub fn c04_escape_string_1_byte() {
     let b = [cls()];
     escape_case(&b, any_bool());
+    vcover!(true, "end of harness reached");
 }
 /// escape_string on every 2-byte string over the escape classes, help and label-value mode.
 #[cfg_attr(kani, kani::proof, kani::unwind(10),
@@ -138,6 +139,7 @@ pub fn c04_escape_string_1_byte() {
 pub fn c04_escape_string_2_bytes() {
     let b = [cls(), cls()];
     escape_case(&b, any_bool());
+    vcover!(true, "end of harness reached");
 }
 /// escape_string on every 3-byte string over the escape classes.
 #[cfg_attr(kani, kani::proof, kani::unwind(10),
@@ -145,6 +147,7 @@ pub fn c04_escape_string_2_bytes() {
 pub fn c04_escape_string_3_bytes() {
     let b = [cls(), cls(), cls()];
     escape_case(&b, any_bool());
+    vcover!(true, "end of harness reached");
 }
 /// escape_string with a multi-byte character before / after an escaped one ("é" = C3 A9).
 #[cfg_attr(kani, kani::proof, kani::unwind(10),
@@ -153,6 +156,7 @@ pub fn c04_escape_string_multibyte() {
     let c = cls();
     escape_case(&[0xC3, 0xA9, c], true);
     escape_case(&[c, 0xC3, 0xA9], true);
+    vcover!(true, "end of harness reached");
 }
 
 fn label(name: &str, v: &[u8]) -> LabelPair {
@@ -189,6 +193,7 @@ pub fn c04_write_sample_layout() {
     vcover!(v1 == b'\n' && v3 == b'"', "c04.sample: newline and quote in label values");
     assert!(same(&w.data, w.len, &e), "C04 sample line: name, labels (escaped), value bit pattern, non-zero timestamp");
     std::mem::forget(m);
+    vcover!(true, "end of harness reached");
 }
 /// write_sample without labels and without postfix: `name <value>\n`.
 #[cfg_attr(kani, kani::proof, kani::unwind(50),
@@ -204,6 +209,7 @@ pub fn c04_write_sample_no_labels() {
     e.lit("n "); e.num_f64(value); e.push(b'\n');
     assert!(same(&w.data, w.len, &e), "C04 sample line without labels");
     std::mem::forget(m);
+    vcover!(true, "end of harness reached");
 }
 
 
@@ -249,6 +255,7 @@ pub fn c04_encode_histogram_family_layout() {
     e.lit("h_sum{l=\"v\"} "); e.num_f64(sum); e.lit("\n");
     e.lit("h_count{l=\"v\"} "); e.num_f64(cnt as f64); e.lit("\n");
     assert!(e.matches(&out.data, out.len), "C04 histogram: HELP, TYPE, cumulative buckets, +Inf bucket equal to the count, _sum, _count; output only appended");
+    vcover!(true, "end of harness reached");
 }
 /// Two families (gauge without help, counter with timestamp): order preserved, one TYPE block per
 /// family, empty help omits the HELP line, non-zero timestamp kept.
@@ -293,6 +300,7 @@ pub fn c04_encode_two_families_order_and_agreement() {
     e.lit("# HELP a y\n# TYPE a counter\na "); e.num_f64(cv); e.lit(" "); e.num_i64(ts); e.lit("\n");
     assert!(e.matches(&out.data, out.len), "C04 families in order, one header block each, empty help omitted, timestamp kept");
     std::mem::forget(fams);
+    vcover!(true, "end of harness reached");
 }
 /// `encode` (io::Write), `encode_utf8` and `encode_to_string` are the same rendering: on a gauge
 /// family with a symbolic value all three produce the bytes `encode_impl` writes, after whatever
@@ -334,6 +342,7 @@ pub fn c04_entry_points_agree_and_append() {
     assert!(e.matches(&a3, n3), "C04 encode_to_string produces the same bytes as encode_utf8");
     std::mem::forget((s1, w, s3));
     std::mem::forget(fams);
+    vcover!(true, "end of harness reached");
 }
 
 /// Summary family: quantile lines, _sum, _count.
@@ -367,6 +376,7 @@ pub fn c04_encode_summary_family_layout() {
     e.lit("# TYPE s summary\ns{quantile=\""); e.num_f64(q); e.lit("\"} "); e.num_f64(v); e.lit("\n");
     e.lit("s_sum "); e.num_f64(sum); e.lit("\ns_count "); e.num_f64(cnt as f64); e.lit("\n");
     assert!(e.matches(&out.data, out.len), "C04 summary: quantile lines, _sum, _count");
+    vcover!(true, "end of harness reached");
 }
 
 /// expected bytes, 200-byte capacity; no loops over the text (memcpy for literals, an unrolled
